@@ -480,6 +480,7 @@ class Service(object):
                 self.results_cache_n = 1
                 return fee
         fee = self._provider_execute('estimatefee', blocks)
+        from_provider = bool(fee)
         if not fee:  # pragma: no cover
             if self.network.fee_default:
                 fee = self.network.fee_default
@@ -489,7 +490,8 @@ class Service(object):
             fee = self.network.fee_min
         elif fee > self.network.fee_max:
             fee = self.network.fee_max
-        self.cache.store_estimated_fee(blocks, fee)
+        if from_provider:
+            self.cache.store_estimated_fee(blocks, fee)
         return fee
 
     def blockcount(self):
